@@ -95,8 +95,9 @@ def format_tag_value(value: Any) -> str:
                 # The bare string parses back to itself. A string that is itself a JSON string
                 # literal (e.g. '"abc"') parses to its content and therefore must be quoted.
                 return value
-        except ValueError:
-            # Strings that look like malformed JSON (e.g. "[abc") must be quoted.
+        except (ValueError, RecursionError):
+            # Strings that look like malformed JSON (e.g. "[abc") or like JSON that is too deeply
+            # nested to parse (e.g. "[" * 2000) must be quoted.
             pass
     return json.dumps(value, sort_keys=True)
 
